@@ -409,6 +409,58 @@ fn reuse_history_bytes_uncached(kind: usize, zlib_next: bool) -> (Vec<u8>, u32) 
     }
 }
 
+/// Two-step histories: a complete dynamic-block stream, `init()`, then a raw stream that is rejected
+/// at its dynamic block header with the given HLIT / HDIST *fields* (30/31 are the out-of-range
+/// values; the decoder may store what it read before validating it), `init()` again.
+pub const DEEP_HISTORIES: [(u32, u32); 5] = [(30, 0), (31, 0), (0, 30), (0, 31), (31, 31)];
+
+pub fn deep_history_streams(k: usize) -> (Vec<u8>, Vec<u8>) {
+    static CACHE: std::sync::OnceLock<Vec<(Vec<u8>, Vec<u8>)>> = std::sync::OnceLock::new();
+    let c = CACHE.get_or_init(|| {
+        let text: Vec<u8> = b"previous stream, previous stream, previously streamed: 0123456789 abcdefghijklmnopqrstuvwxyz".iter().cycle().take(700).cloned().collect();
+        let first = miniz_oxide::deflate::compress_to_vec(&text, 6);
+        let t = crate::refmodel::ref_inflate(&first, &crate::refmodel::Opts::raw());
+        assert!(t.blocks.iter().any(|b| b.btype == 2), "deep history: first stream has no dynamic block");
+        let inv = crate::props::c04::targeted_invalid();
+        DEEP_HISTORIES
+            .iter()
+            .map(|(hl, hd)| {
+                let name = format!("hlit-field={},hdist-field={}", hl, hd);
+                let bad = inv.iter().find(|(n, _, z)| *n == name && !*z).expect("deep history: header violation not in the C04 list").1.clone();
+                (first.clone(), bad)
+            })
+            .collect()
+    });
+    c[k].clone()
+}
+
+pub fn apply_deep_history(d: &mut DecompressorOxide, k: usize) {
+    let (a, b) = deep_history_streams(k);
+    let mut scratch = vec![0u8; 4096];
+    let _ = miniz_oxide::inflate::core::decompress(d, &a, &mut scratch, 0, F_FLAT);
+    d.init();
+    let _ = miniz_oxide::inflate::core::decompress(d, &b, &mut scratch, 0, F_FLAT);
+    d.init();
+}
+
+/// The same two-step history on a streaming state (created Raw), ending with `reset(fmt)` or, when
+/// `min` is set and the format stays Raw, `reset_as(MinReset)`.
+pub fn deep_history_state(k: usize, fmt: miniz_oxide::DataFormat, min: bool) -> Box<miniz_oxide::inflate::stream::InflateState> {
+    use miniz_oxide::inflate::stream::{inflate, InflateState, MinReset};
+    let (a, b) = deep_history_streams(k);
+    let mut st = InflateState::new_boxed(miniz_oxide::DataFormat::Raw);
+    let mut scratch = vec![0u8; 4096];
+    let _ = inflate(&mut st, &a, &mut scratch, miniz_oxide::MZFlush::None);
+    st.reset(miniz_oxide::DataFormat::Raw);
+    let _ = inflate(&mut st, &b, &mut scratch, miniz_oxide::MZFlush::None);
+    if min && fmt == miniz_oxide::DataFormat::Raw {
+        st.reset_as(MinReset);
+    } else {
+        st.reset(fmt);
+    }
+    st
+}
+
 pub fn apply_reuse_history(d: &mut DecompressorOxide, kind: usize, zlib_next: bool) {
     let (bytes, flags) = reuse_history_bytes(kind, zlib_next);
     let mut scratch = vec![0u8; 4096];
